@@ -1,6 +1,7 @@
 """Per-property wiring: which contract modules (T1) and which bounded driver."""
 
 T1_MODULES = {
+    "C08": ["vt.contracts.hyper_score"],
     "C12": ["vt.contracts.misc_small"],
     "C17": ["vt.contracts.syntactic", "vt.contracts.misc_small"],
     "C16": ["vt.contracts.syntactic"],
